@@ -1,22 +1,128 @@
-(* C02 - well-formed inbound packets decode to exactly the values the server sent. *)
-From Poster Require Import Model.Rx Proofs.VarintP Proofs.CodecP.
+(* C02 - well-formed inbound packets decode to exactly the values the server sent.
+   Spec/Mqtt.v gives, from the standard, an ENCODER for every packet a server may send (all legal
+   property lists in any order, repeated user properties, the shortened forms).  Each theorem:
+   the decoder of Model/Rx.v accepts the encoded packet and yields exactly the encoded values. *)
+From Poster Require Import Model.Rx Spec.Mqtt Proofs.VarintP Proofs.CodecP Proofs.RxSpecP.
+
+(* the standard's variable byte integer algorithm and property table are the ones the code uses *)
+Theorem C02_varint_algorithm : forall n, n <= VMAX -> spec_varint n = venc n.
+Proof. exact spec_varint_venc. Qed.
+Print Assumptions C02_varint_algorithm.
+Theorem C02_property_table : forall id, spec_ptype id = model_ptype id.
+Proof. exact spec_ptype_model. Qed.
+Print Assumptions C02_property_table.
 
 (* every list of well-formed properties - any identifiers of the MQTT 5 table, any order, any
    repetition (user properties) - decodes to exactly that list *)
 Theorem C02_props : forall ps, Forall wf_prop ps -> dec_props_all (enc_props ps) = Ok ps.
 Proof. exact props_roundtrip. Qed.
 Print Assumptions C02_props.
-
-(* every property value of every type round-trips, whatever follows it *)
 Theorem C02_value : forall t v r, wf_pval t v -> dec_pval t (enc_pval v ++ r) = Ok v.
 Proof. exact dec_pval_enc. Qed.
 Print Assumptions C02_value.
-
-(* variable byte integers: every value up to 268435455 *)
 Theorem C02_varint : forall n rest, n <= VMAX -> vdec (venc n ++ rest) = VOk n (VarintP.vlen0 n).
 Proof. exact vdec_venc. Qed.
 Print Assumptions C02_varint.
 
+Theorem C02_connack : forall sp reason ps,
+  memN reason spec_connect_reasons = true -> wf_props connack_ids ps ->
+  lenN ([b2n' sp; reason] ++ spec_props ps) <= VMAX ->
+  dec_packet (spec_connack sp reason ps) = Ok (mkrx KConnack sp false false 0 0 reason ps [] [] []).
+Proof. exact dec_connack_spec. Qed.
+Print Assumptions C02_connack.
+
+Theorem C02_publish : forall dup qos retain topic pid ps payload,
+  qos <= 2 -> str_ok topic -> (qos <> 0 -> 1 <= pid < 65536) -> wf_props publish_ids ps ->
+  lenN (enc_bin topic ++ (if qos =? 0 then [] else enc_u16 pid) ++ spec_props ps ++ payload) <= VMAX ->
+  dec_packet (spec_publish dup qos retain topic pid ps payload) =
+  Ok (mkrx KPublish false dup retain qos (if qos =? 0 then 0 else pid) 0 ps topic payload []).
+Proof. exact dec_publish_packet. Qed.
+Print Assumptions C02_publish.
+
+(* the four acknowledgement packets, in the 2-byte, 3-byte and full forms *)
+Theorem C02_puback : forall pid reason ps form,
+  1 <= pid < 65536 -> memN reason spec_puback_reasons = true -> wf_props ack_ids ps ->
+  lenN (ack_body pid reason ps form) <= VMAX ->
+  dec_packet (spec_ack 64 pid reason ps form) =
+  Ok (mkrx KPuback false false false 0 pid (match form with AckShort2 => 0 | _ => reason end)
+           (match form with AckFull => ps | _ => [] end) [] [] []).
+Proof. exact dec_puback_spec. Qed.
+Print Assumptions C02_puback.
+Theorem C02_pubrec : forall pid reason ps form,
+  1 <= pid < 65536 -> memN reason spec_puback_reasons = true -> wf_props ack_ids ps ->
+  lenN (ack_body pid reason ps form) <= VMAX ->
+  dec_packet (spec_ack 80 pid reason ps form) =
+  Ok (mkrx KPubrec false false false 0 pid (match form with AckShort2 => 0 | _ => reason end)
+           (match form with AckFull => ps | _ => [] end) [] [] []).
+Proof. exact dec_pubrec_spec. Qed.
+Print Assumptions C02_pubrec.
+Theorem C02_pubrel : forall pid reason ps form,
+  1 <= pid < 65536 -> memN reason spec_pubrel_reasons = true -> wf_props ack_ids ps ->
+  lenN (ack_body pid reason ps form) <= VMAX ->
+  dec_packet (spec_ack 98 pid reason ps form) =
+  Ok (mkrx KPubrel false false false 0 pid (match form with AckShort2 => 0 | _ => reason end)
+           (match form with AckFull => ps | _ => [] end) [] [] []).
+Proof. exact dec_pubrel_spec. Qed.
+Print Assumptions C02_pubrel.
+Theorem C02_pubcomp : forall pid reason ps form,
+  1 <= pid < 65536 -> memN reason spec_pubrel_reasons = true -> wf_props ack_ids ps ->
+  lenN (ack_body pid reason ps form) <= VMAX ->
+  dec_packet (spec_ack 112 pid reason ps form) =
+  Ok (mkrx KPubcomp false false false 0 pid (match form with AckShort2 => 0 | _ => reason end)
+           (match form with AckFull => ps | _ => [] end) [] [] []).
+Proof. exact dec_pubcomp_spec. Qed.
+Print Assumptions C02_pubcomp.
+
+Theorem C02_suback : forall pid ps codes,
+  1 <= pid < 65536 -> wf_props ack_ids ps -> forallb (fun b => memN b spec_suback_reasons) codes = true ->
+  lenN (enc_u16 pid ++ spec_props ps ++ codes) <= VMAX ->
+  dec_packet (spec_suback 144 pid ps codes) = Ok (mkrx KSuback false false false 0 pid 0 ps [] [] codes).
+Proof. exact dec_suback_packet. Qed.
+Print Assumptions C02_suback.
+Theorem C02_unsuback : forall pid ps codes,
+  1 <= pid < 65536 -> wf_props ack_ids ps -> forallb (fun b => memN b spec_unsuback_reasons) codes = true ->
+  lenN (enc_u16 pid ++ spec_props ps ++ codes) <= VMAX ->
+  dec_packet (spec_suback 176 pid ps codes) = Ok (mkrx KUnsuback false false false 0 pid 0 ps [] [] codes).
+Proof. exact dec_unsuback_packet. Qed.
+Print Assumptions C02_unsuback.
+
+Theorem C02_pingresp : dec_packet spec_pingresp = Ok (rx0 KPingresp).
+Proof. exact dec_pingresp_packet. Qed.
+Print Assumptions C02_pingresp.
+
+(* DISCONNECT in the 0-byte, 1-byte and full forms *)
+Theorem C02_disconnect : forall reason ps form,
+  memN reason spec_disconnect_reasons = true -> wf_props disconnect_ids ps ->
+  lenN ([reason] ++ spec_props ps) <= VMAX ->
+  dec_packet (spec_disconnect reason ps form) =
+  Ok (mkrx KDisconnect false false false 0 0 (match form with DiscShort0 => 0 | _ => reason end)
+           (match form with DiscFull => ps | _ => [] end) [] [] []).
+Proof. exact dec_disconnect_packet. Qed.
+Print Assumptions C02_disconnect.
+
+(* AUTH in the 0-byte and full forms (the Authentication Method is mandatory in the full form) *)
+Theorem C02_auth : forall reason ps short,
+  memN reason spec_auth_reasons = true -> wf_props auth_ids ps -> (exists m, In (21, m) ps) ->
+  lenN ([reason] ++ spec_props ps) <= VMAX ->
+  dec_packet (spec_auth reason ps short) =
+  Ok (if short then rx0 KAuth else mkrx KAuth false false false 0 0 reason ps [] [] []).
+Proof. exact dec_auth_packet. Qed.
+Print Assumptions C02_auth.
+
+(* accessors: the builders keep the LAST occurrence; for a legal packet (each identifier at most
+   once, user properties aside) that is the one value that was sent, independent of the order in which the
+   properties were written; user properties are exposed in wire order (Props.users) *)
+Theorem C02_order : forall id ps, (count_id id ps <= 1)%nat -> plast id ps = pfirst id ps.
+Proof. exact plast_pfirst. Qed.
+Print Assumptions C02_order.
+
 Example C02_nonvacuous :
-  Forall wf_prop [(38, VPr [107] [118]); (17, V32 4294967295); (33, V16 1); (38, VPr [] []); (11, VV 268435455 4)].
-Proof. repeat (apply Forall_cons; [unfold wf_prop, wf_pval, str_ok; cbn; repeat split; try reflexivity; try lia|]). apply Forall_nil. Qed.
+  let ps := [(38, VPr [107] [118]); (17, V32 4294967295); (33, V16 1); (38, VPr [] []); (31, VStr [104; 105])] in
+  wf_props connack_ids ps /\
+  dec_packet (spec_connack true 0 ps) = Ok (mkrx KConnack true false false 0 0 0 ps [] [] []).
+Proof.
+  split; [|vm_compute; reflexivity]. split; [|split].
+  - repeat (apply Forall_cons; [unfold swf_prop, wf_pval, str_ok; cbn; repeat split; try reflexivity; try lia|]). apply Forall_nil.
+  - intros p Hp. cbn [In] in Hp. repeat (destruct Hp as [<-|Hp]; [cbn; tauto|]). destruct Hp.
+  - vm_compute. discriminate.
+Qed.
